@@ -247,7 +247,7 @@ func (it *interp) beginBlock() {
 	it.emitSlash(common.L(3, now, total), 0, common.L())
 	it.thrOps = append(it.thrOps, common.L(1, now, total))
 	it.thrObs = append(it.thrObs, common.L(0, it.env.K.GetSlashMeter(it.env.Ctx).Int64(),
-		rel(it.env.K.GetSlashMeterReplenishTimeCandidate(it.env.Ctx)), it.env.K.GetSlashMeterAllowance(it.env.Ctx).Int64()))
+		rel(it.env.K.GetSlashMeterReplenishTimeCandidate(it.env.Ctx)), it.env.K.GetSlashMeterAllowance(it.env.Ctx).Int64(), 0))
 }
 
 func (it *interp) endBlock() {
@@ -313,7 +313,7 @@ func (it *interp) recv(a []int64) {
 	var h common.T = common.L()
 	res := int64(-1)
 	reach := false
-	pow := int64(0)
+	vFound, vJailed, vLast, canJail := false, false, int64(0), false
 	if known {
 		var hh uint64
 		var found bool
@@ -328,7 +328,13 @@ func (it *interp) recv(a []int64) {
 		if addrBad == 0 {
 			pa := env.K.GetProviderAddrFromConsumerAddr(env.Ctx, cid, providertypes.NewConsumerConsAddress(addr))
 			res = it.provID(pa.ToSdkConsAddr())
-			pow = env.K.GetEffectiveValPower(env.Ctx, pa).Int64()
+			// staking state of the reported validator (oracle for the throttle model, which computes the effective
+			// power itself; never ask the keeper's GetEffectiveValPower here)
+			if v := it.w.ValByCons(pa.ToSdkConsAddr()); v != nil {
+				vFound, vJailed, vLast = true, v.Jailed, v.LastPower
+				_, perr := env.K.GetInfractionParameters(env.Ctx, cid)
+				canJail = v.Status != stakingtypes.Unbonded && !v.Tombstoned && perr == nil
+			}
 			reach = found && power != 0 && infr == 2 &&
 				env.K.GetConsumerPhase(env.Ctx, cid) == providertypes.CONSUMER_PHASE_LAUNCHED &&
 				env.K.IsConsumerValidator(env.Ctx, cid, pa)
@@ -338,6 +344,10 @@ func (it *interp) recv(a []int64) {
 	cpd := ccvtypes.NewConsumerPacketData(ccvtypes.SlashPacket, &ccvtypes.ConsumerPacketData_SlashPacketData{SlashPacketData: data})
 	pkt := channeltypes.NewPacket(cpd.GetBytes(), 1, ccvtypes.ConsumerPortID, "channel-9", ccvtypes.ProviderPortID, dst,
 		clienttypes.NewHeight(1, 100000), 0)
+	jailedBefore := make([]bool, len(it.w.Vals))
+	for i, v := range it.w.Vals {
+		jailedBefore[i] = v.Jailed
+	}
 	class := int64(0)
 	// IBC core semantics: the callback runs on a cached context which is written only for a successful acknowledgement
 	r := common.Tx(env.Ctx, func(ctx sdk.Context) error {
@@ -364,9 +374,15 @@ func (it *interp) recv(a []int64) {
 	} else if reach {
 		tc = 2
 	}
-	it.thrOps = append(it.thrOps, common.L(2, common.B(reach), pow))
+	jailedNow := false
+	for i, v := range it.w.Vals {
+		if v.Jailed && !jailedBefore[i] {
+			jailedNow = true
+		}
+	}
+	it.thrOps = append(it.thrOps, common.L(2, common.B(reach), common.B(vFound), common.B(vJailed), vLast, common.B(canJail)))
 	it.thrObs = append(it.thrObs, common.L(tc, env.K.GetSlashMeter(env.Ctx).Int64(),
-		rel(env.K.GetSlashMeterReplenishTimeCandidate(env.Ctx)), 0))
+		rel(env.K.GetSlashMeterReplenishTimeCandidate(env.Ctx)), 0, common.B(jailedNow)))
 }
 
 // Run interprets one case.
